@@ -80,6 +80,13 @@ def removal_census(fx, res, rule):
                 # the iterated vector must be filled only by pushes guarded by `<other>.overrides.contains(arg.id)`
                 pushes = [p for t in tree(top) for p in t.calls_to(r"Vec::push$")]
                 okb_ = bool(pushes) and all(any(re.match(r"^T:contains\(.*\.overrides,get_id\(arg\)\)$", g) for g in guard_strs(p.body, p.bb)) for p in pushes)
+            m2 = re.fullmatch(r"next\(into_iter\(collect\((.*)\)\)\)#Some\.0", e)
+            if not okf and not okb_ and m2 and fn_ == "remove_overrides" and re.match(r"^(map|filter|filter_map)\(", m2.group(1)) and "arg_ids(matcher)" in m2.group(1):
+                # iterator-chain form of the same collection: matcher.arg_ids().filter_map(find).filter(|o| o.overrides.contains(arg.id)).map(get_id).collect()
+                # every element passed a filter whose closure is exactly that containment test, and no other filter drops elements
+                flt = [x for x in top.calls_to(r"Iterator::filter$") if expr(top, x.dest) and expr(top, x.dest) in m2.group(1)]
+                tests = [strip_transparent(expr(cb_, 0)) for x in flt for cb_ in closure_bodies(fx, x)[-1:]]
+                okb_ = bool(tests) and all(re.fullmatch(r"contains\([\w.]+\.overrides,get_id\((arg|arg1\.0)\)\)", t_) for t_ in tests)
             if fn_ == "react" and e == "get_id(arg)":
                 # the reacting argument's own record is replaced by the occurrence being recorded (Set/SetTrue/SetFalse/Count)
                 sc_ = [x for x in b.calls_to(r"Parser::start_custom_arg$") if x.bb in b.reachable(c.target if c.target is not None else c.bb)]
